@@ -15,7 +15,7 @@ ALL_INVARIANTS = [
     "Inv_C06_AppendOnly", "Inv_C06_Numbered",
     "Inv_C08_Partition", "Inv_C08_ChildRoot", "Inv_C08_Refs", "Inv_C08_WhoWrites",
     "Inv_C12_Excluded", "Inv_C12_Accumulate", "Inv_NoInternal",
-    "Inv_C09_Identical", "Inv_C09_Detects",
+    "Inv_C09_Identical", "Inv_C09_Detects", "Inv_C17_Renamed", "Inv_C17_Altered",
     "Inv_C18_Summary", "Inv_C18_VerifyPL", "Inv_C19_Info", "Inv_C19_InfoSF", "Inv_C14_Frame",
 ]
 
@@ -111,6 +111,14 @@ SCOPES = {
         init={P("a"): "c1", P("d"): "DIR", P("d", "b"): "c2", P("e"): "DIR"}, contents=["c3"],
         roots=[P()], fmtchoices=[["md5"], ["xxh64"]], pats=[()], sf=[],
         ops=["alter", "rename", "create", "verify", "diff", "dr", "distinct"], maxgens=2, maxops=5, keepsnap=False,
+    ),
+    # rename chains: one file renamed in consecutive generations, moves into a directory
+    "chain": dict(
+        fmts=["md5", "xxh64"], files=[P("a"), P("a2"), P("d", "a3"), P("k")], dirs=[P("d")],
+        init={P("a"): "c1", P("k"): "c2"}, contents=["c3"],
+        roots=[P()], fmtchoices=[["md5"], ["xxh64"]], pats=[()], sf=[],
+        ops=["alter", "rename", "mkdir", "create", "verify", "diff", "dr", "distinct"], maxgens=3, maxops=7, keepsnap=False,
+        mutable=[P("a"), P("a2"), P("d", "a3"), P("d")],
     ),
     # directory-hash verification
     "dh": dict(
